@@ -618,8 +618,8 @@ pub fn run(ctx: &Ctx) {
         crate::engine::Tier::Thorough => &[(0, 0), (1, 15), (5, 59), (10, 30), (12, 0), (13, 1), (18, 44), (20, 20), (23, 45), (23, 59)],
     };
     ctx.run_table(&Times, "all-zone-pairs", pair_table(times), true);
-    ctx.run_generated(&Times, ctx.tier.pick(15_000, 600_000), case_strategy);
-    ctx.run_generated(&SetTimezone, ctx.tier.pick(300, 8_000), settz_strategy);
+    ctx.run_generated(&Times, ctx.tier.pick(100_000, 1_000_000), case_strategy);
+    ctx.run_generated(&SetTimezone, ctx.tier.pick(1_000, 10_000), settz_strategy);
 }
 
 pub fn replay(w: &mut Worker, sub: &str, case: &serde_json::Value) -> Option<Verdict> {
